@@ -21,6 +21,8 @@ func C06(r *core.Run) {
 	// "never … exhausts the stack": the decoder's recursion over nested values needs a constant bound
 	tc.DepthRels, tc.MinDepthSites = []string{"internal/codec"}, 10
 	rules.Termination(r, sc, tc)
+	// "never … loops forever": a call that waits for a mutex nobody will release does not return either
+	rules.LockPairing(r, []string{"internal/codec", "lib/j5reflect", "lib/j5schema"})
 	// a cached reflection object built for one descriptor and handed to a message of another
 	// makes protobuf-go panic ("field descriptor does not belong to this message")
 	rules.MemoKeys(r, []string{"internal/codec", "lib/j5reflect", "lib/j5schema"}, "memo_sites")
